@@ -1,3 +1,5 @@
+import Oidc.Shapes
+import Oidc.Facts
 import Oidc.Proofs.Handler4
 /-! # C08 — refresh: replaced once and verified, else denied (property theorems only) -/
 namespace Oidc.Props.C08
@@ -74,5 +76,12 @@ theorem refresh_bad_token_not_forwarded (c : Cfg) (e : Env) (r : Req) (v : View)
 /-- the refresh branch never answers 5xx -/
 theorem refresh_never_5xx (c : Cfg) (e : Env) (r : Req) (v : View) : (refreshFlow c e r v).resp.code < 500 :=
   Oidc.Handler.refreshFlow_code_lt_500 c e r v
+
+
+/-! obligations against the regenerated shapes: the functions these theorems rest on still have the steps, guards, status
+    codes and literals the model was written against (`Oidc/Shapes.lean`) -/
+theorem shape_ServeHTTP_ok : Oidc.Shapes.Shape_ServeHTTP := by unfold Oidc.Shapes.Shape_ServeHTTP; rfl
+theorem shape_isUserAuthenticated_ok : Oidc.Shapes.Shape_isUserAuthenticated := by unfold Oidc.Shapes.Shape_isUserAuthenticated; rfl
+theorem shape_refreshToken_ok : Oidc.Shapes.Shape_refreshToken := by unfold Oidc.Shapes.Shape_refreshToken; rfl
 
 end Oidc.Props.C08
